@@ -419,8 +419,8 @@ Record st := mkSt { s_data : list line; s_instrs : idict; s_log : log; s_comment
 
 Definition caught (e : err) : bool :=       (* except (ValueError, IndexError, KeyError) *)
   is_value e || err_eqb e EIndex || err_eqb e EKey.
-(* emit_bf3comp: except (ValueError, IndexError, KeyError, OverflowError) *)
-Definition caught_emit (e : err) : bool := caught e || err_eqb e EOverflow.
+(* emit_bf3comp: except (ValueError, IndexError, KeyError, OverflowError, TypeError) *)
+Definition caught_emit (e : err) : bool := caught e || err_eqb e EOverflow || err_eqb e EType.
 
 Definition nonempty {A} (l : list A) : bool := match l with [] => false | _ => true end.
 
